@@ -70,11 +70,13 @@ type Exec struct {
 
 type writeSet struct {
 	all    bool
+	classes [nClasses]bool // whole heap classes forgotten
 	heap   map[string]heapKeyInfo
 	locals map[*ssa.Alloc]bool
 }
 
 type heapKeyInfo struct {
+	rootKey string
 	root types.Type
 	comp int
 	sort Sort
@@ -87,6 +89,11 @@ func newWriteSet() *writeSet {
 func (w *writeSet) addAll(o *writeSet) {
 	if o.all {
 		w.all = true
+	}
+	for c := range o.classes {
+		if o.classes[c] {
+			w.classes[c] = true
+		}
 	}
 	for k, v := range o.heap {
 		w.heap[k] = v
@@ -546,6 +553,11 @@ func (ex *Exec) havocWrites(st *State, ws *writeSet) {
 	if ws.all {
 		ex.havocAllHeap(st)
 	} else {
+		for c := range ws.classes {
+			if ws.classes[c] {
+				ex.havocClass(st, c)
+			}
+		}
 		var keys []string
 		for k := range ws.heap {
 			keys = append(keys, k)
@@ -553,7 +565,7 @@ func (ex *Exec) havocWrites(st *State, ws *writeSet) {
 		sort.Strings(keys)
 		for _, k := range keys {
 			info := ws.heap[k]
-			ex.havocHeapKey(st, typeKey(info.root), info.comp, info.sort)
+			ex.havocHeapKey(st, info.rootKey, info.comp, info.sort)
 		}
 	}
 	var allocs []*ssa.Alloc
